@@ -10,6 +10,7 @@ from harness.c01 import SEEDS
 from harness.c18 import SOURCES as C18_SOURCES
 from harness import gqlworld as G
 from oracles import ref_lexer as RL
+from py_gql.exc import GraphQLSyntaxError
 
 INDENTS = (2, 4, 1, "\t", 0)
 
@@ -77,6 +78,42 @@ def _print_document(doc: int, indent: int) -> bool:
         back = parse_entry(entry, printed)
         ok = printed == again and strip_loc(back.to_dict()) == strip_loc(tree.to_dict()) and print_ast(back, indent=IND) == printed
     return result(ok, True)
+
+
+# ------------------------------------------------------------------ neighbouring definitions: what one definition ends with and the next begins with
+DEFINITION_POOL = (
+    "{ a }", "{ a: b }", "query { a }", "query Q { a }", "query ($v: Int) { a }", "query @d { a }", "mutation { a }", "subscription S @d { a }", "fragment F on T { a }", "fragment F($v: Int = 1) on T @d { a }",
+    "schema { query: Q }", "schema @d { query: Q }", "extend schema @d", "extend schema { mutation: M }",
+    "scalar S", "scalar S @d", "extend scalar S @d", '"desc" scalar S',
+    "type A", "type A @d", "type A implements I", "type A implements I & J @d", "type A { f: T }", "extend type A @d", "extend type A implements I", "extend type A { f: T }",
+    "interface I", "interface I @d", "interface I { f: T }", "extend interface I @d", "extend interface I { f: T }",
+    "union U", "union U @d", "union U = A", "union U = A | B", "extend union U @d", "extend union U = A",
+    "enum E", "enum E @d", "enum E { A }", "extend enum E @d", "extend enum E { A }",
+    "input In", "input In @d", "input In { a: Int }", "extend input In @d", "extend input In { a: Int }",
+    "directive @x on FIELD", "directive @x(a: Int) on FIELD | QUERY", '"""desc""" directive @x on FIELD',
+)
+
+
+def _definition_pairs(d1: int, d2: int, d3: int, indent: int) -> bool:
+    """
+    pre: 0 <= d1 < len(DEFINITION_POOL) and 0 <= d2 < len(DEFINITION_POOL) and -1 <= d3 < len(DEFINITION_POOL) and 0 <= indent <= 1
+    pre: d3 == -1 or (thorough() and d3 < 10)
+    pre: shard_of(d1)
+    post: _
+    """
+    A1, A2 = pick(d1, DEFINITION_POOL), pick(d2, DEFINITION_POOL)
+    D3 = concrete_int(d3, -1, len(DEFINITION_POOL) - 1)
+    IND = pick(indent, INDENTS)
+    with untraced():
+        text = " ".join([A1, A2] + ([DEFINITION_POOL[D3]] if D3 >= 0 else []))
+        try:
+            tree = parse_entry("document_ts_fragvars", text)
+        except GraphQLSyntaxError:
+            return result(True, False)        # the concatenation itself is not a document (e.g. `type A` followed by `{ a }` is ONE definition - still a document, handled below)
+        printed = print_ast(tree, indent=IND)
+        back = parse_entry("document_ts_fragvars", printed)
+        ok = strip_loc(back.to_dict()) == strip_loc(tree.to_dict()) and print_ast(back, indent=IND) == printed
+    return result(ok, len(tree.definitions) >= 2)
 
 
 STR_N = 3 if thorough() else 2
@@ -227,6 +264,12 @@ def _string_in_context(c1: int, c2: int, c3: int, ctx: int, block: bool, indent:
 
 
 CONDITIONS = [
+    Cond(
+        name="definition_pairs", fn=_definition_pairs, quick=90, thorough=600, per_path=30, shards_quick=16, shards_thorough=16,
+        bound="every ordered pair (thorough: also triples ending in one of the 10 executable definitions) of %d definition texts - every kind of executable and type-system definition and extension, with and without body, "
+              "directives, description; the anonymous query in shorthand and keyword form - concatenated into one mixed document x 2 indents: print then parse gives the same tree (same number of definitions), and printing again the same text" % len(DEFINITION_POOL),
+        symbolic={"d1,d2,d3": "choice: definitions", "indent": "choice"}, witness={"d1": 22, "d2": 3, "d3": -1, "indent": 0},
+    ),
     Cond(
         name="print_document", fn=_print_document, quick=100, thorough=300, per_path=60, shards_quick=16, shards_thorough=16,
         bound="%d documents (grammar-covering seed corpus, visitor sources with every node kind and 0/1/2-element lists, execution templates, one witness text for EVERY expanded production alternative of the grammar (all combinations of optional parts), printer-specific texts: empty / leading-blank / quote- and backslash-ending block strings, "
